@@ -106,11 +106,14 @@ type Exec struct {
 	frames        []*Frame
 	ForkSites     map[string]int
 	SlowSites     map[string]float64
+	SlowPath      []int
 	merge         *mergeState
 	started       time.Time
 	constDone     int
 	constMemo     map[int]*smt.Term
+	contentAtoms  []*smt.Term
 	loopAssume    int
+	loopAssumeFn  string
 	localMerge    map[string]bool
 	linked        map[int]bool
 	noMerge       bool
@@ -261,6 +264,9 @@ func (x *Exec) Branch(c *smt.Term) bool {
 	defer func() {
 		if d := time.Since(t0).Seconds(); d > 1.0 {
 			x.SlowSites[x.site()] += d
+			if d > 4.0 && x.SlowPath == nil {
+				x.SlowPath = x.tracePath()
+			}
 		}
 	}()
 	rT := x.S.Check(c)
@@ -567,10 +573,10 @@ func (x *Exec) runFrame(fr *Frame) (ret Value) {
 	count := 0
 	for {
 		fr.Visits[block.Index]++
-		if x.loopAssume > 0 && fr.Visits[block.Index] > x.loopAssume+1 && x.P.shouldInterpret(fn) && fn.Pkg != nil && !strings.Contains(fn.Pkg.Pkg.Path(), "zzverif") {
+		if x.loopAssume > 0 && fr.Visits[block.Index] > x.loopAssume+1 && strings.Contains(fn.String(), x.loopAssumeFn) {
 			// the harness stated this bound as an assumption on the pre-state
 			x.Assumes["stated loop bound"]++
-			x.exit("assume", fmt.Sprintf("stated loop bound %d in %s", x.loopAssume, fn.String()))
+			x.exit("assume", fmt.Sprintf("stated loop bound %d in %s block %d (%s)", x.loopAssume, fn.String(), block.Index, block.Comment))
 		}
 		if fr.Visits[block.Index] > x.Cfg.LoopBound+1 {
 			x.exit("unwind", fmt.Sprintf("loop bound %d exceeded in %s block %d", x.Cfg.LoopBound, fn.String(), block.Index))
